@@ -309,9 +309,9 @@ pub fn exec_case(case: &CliCase, ctr: &mut Ctr) -> Result<Exec, String> {
     let sb = sandbox_dir();
     let out = crate::cli::run_cli_with(case, case.entropy, &sb, expected.as_deref())?;
     let f = &out.fired;
-    if f.calls == 0 {
-        // every run opens its input through the interposed open: an empty report means LD_PRELOAD did not take
-        return Err("shim not live: the child made no intercepted call".into());
+    if out.report.is_empty() {
+        // the shim reports at least the start-up getenv calls of every run: an empty report means LD_PRELOAD did not take
+        return Err("shim not live: the child produced an empty shim report".into());
     }
     for (k, n) in [
         ("fault.open_errno_input", f.input_open_err.len() as u64),
